@@ -62,6 +62,9 @@ def entries(dim: int | None = None):
     # coordinate grids whose axes start at DIFFERENT coordinates (domain not anchored at the origin)
     out += [("gen_penalise_field_boundary_pyst_kernel_2d", {"width": w, "grid": "offset"}) for w in (1, 2)]
     out += [("gen_penalise_field_boundary_pyst_kernel_3d", {"width": w, "grid": "offset", "field_type": f}) for w in (1, 2) for f in ft]
+    # physical domain length far from 1 (dx = length / nx)
+    out += [("gen_penalise_field_boundary_pyst_kernel_2d", {"width": w, "grid": True, "length": L}) for w in (1, 2) for L in (37.0, 0.01)]
+    out += [("gen_penalise_field_boundary_pyst_kernel_3d", {"width": 2, "grid": True, "length": L, "field_type": f}) for L in (37.0, 0.01) for f in ft]
     out += [
         ("gen_laplacian_filter_kernel_3d", {"filter_order": o, "filter_type": t, "field_type": f, "buffers": True})
         for o in (1, 2, 3) for t in ("multiplicative", "convolution") for f in ft
@@ -72,7 +75,7 @@ def entries(dim: int | None = None):
     for name, opts in out:
         if name.startswith(("gen_advection_timestep", "gen_diffusion_timestep", "gen_advection_flux", "gen_diffusion_flux", "gen_curl", "gen_outplane", "gen_inplane",
                             "gen_update_vorticity", "gen_elementwise_cross", "gen_divergence", "gen_vorticity_stretching", "gen_elementwise_sum", "gen_add_fixed_val", "gen_laplacian_filter", "gen_penalise")):
-            if opts.get("grid") == "offset" or opts.get("reset_ghost_zone") is False:
+            if opts.get("grid") == "offset" or opts.get("reset_ghost_zone") is False or "length" in opts:
                 continue
             fixed.append((name, {**opts, "fixed": True}))
     out += fixed
@@ -90,13 +93,13 @@ def instantiate(name: str, opts: dict, dtype, num_threads=False, shape=None, dx=
     import sopht.numeric.eulerian_grid_ops as spne
 
     gen = getattr(spne, name)
-    kw = {k: v for k, v in opts.items() if k not in ("grid", "buffers", "midstep", "fixed")}
+    kw = {k: v for k, v in opts.items() if k not in ("grid", "buffers", "midstep", "fixed", "length")}
     aux = {}
     d = gen_dim(name)
     if shape is None:
         shape = (9, 11) if d == 2 else (8, 9, 11)
     if dx is None:
-        dx = 1.0 / shape[-1]
+        dx = opts.get("length", 1.0) / shape[-1]
     if opts.get("grid"):
         origins = None if opts["grid"] is True else [(-0.37, 1.21, 0.043)[k] for k in range(d)]
         pos = position_field(shape, dx, dtype, origins)
